@@ -70,8 +70,11 @@ impl HEST {
         self.checksum.append(data);
 
         // The HEST keeps a count of how many structures are
-        // contained within it.
-        self.checksum.add(1);
+        // contained within it; the sum follows its little-endian bytes.
+        let old_count = self.structures.len() as u32;
+        let new_count = old_count + 1;
+        self.checksum.delete(old_count.as_bytes());
+        self.checksum.append(new_count.as_bytes());
         self.header.checksum = self.checksum.value();
     }
 
